@@ -134,13 +134,14 @@ ActFor(e) ==
                   IF Len(Vals(e)) = Len(e.items) THEN Vals(e) ELSE [k \in DOMAIN e.items |-> 0])
     [] e.op = "reload"       -> ActReload(e.h, e.form)
     [] e.op = "neg_nonces"   -> ActNegNonces(e.out, e.src)
+    [] e.op = "graft_proof"  -> ActGraftProof(e.out, e.commit_of, e.proof_of)
     [] OTHER -> FALSE
 
 Known(e) == e.op \in {"split", "kp_from_ss", "tamper_ss", "lie_min", "reconstruct", "commit", "preprocess",
    "tamper_comm", "package", "sign", "tamper_share", "verify_share", "aggregate", "verify", "dkg1", "tamper_r1",
    "tamper_r2", "dkg2", "dkg3", "refresh_shares", "refresh_share", "repair1", "repair2", "repair3", "rr_new",
    "rr_regen", "rr_fixed", "tamper_seed", "rr_sign", "rr_sign_fixed", "mk_sk", "single_sign", "tamper_sig", "batch",
-   "reload", "neg_nonces"}
+   "reload", "neg_nonces", "graft_proof"}
 
 \* keys on which the specification's expectation and the code's result differ
 Diff(step, res) ==
